@@ -179,7 +179,18 @@ def build(rng, lines, used, closure, kwdefault):
     def src_for(name, rec, cn, selfname):
         body = [l.replace("recurse(", rec + "(").replace("call_next(", cn + "(").replace("F(", selfname + "(") for l in lines]
         out = ["\n" * pad]
-        if closure:
+        if closure == 2:
+            body = [l.replace(rec + "(", "rcs(") for l in body]
+            out.append("def factory(cv, zz):")
+            out.append(f"    rcs = {rec}")
+            out.append(f"    def {name}({hdr_params}):")
+            out.append("        if ENTERED(): return 'deep'")
+            out.append("        TICK(('cv', repr(cv)[:20]), None)")
+            out.append("        TICK(('zz', repr(zz)[:20]), None)")
+            out += ["        " + l for l in body]
+            out.append(f"    return {name}")
+            out.append(f"{name} = factory(41, 43)")
+        elif closure:
             out.append("def factory(cv):")
             out.append(f"    def {name}({hdr_params}):")
             out.append("        if ENTERED(): return 'deep'")
@@ -240,6 +251,8 @@ def m_obj(x: object, y: int = 3{kw}):
     rsrc = src_for("m_list", "REC", "NXT", "REC")
     rname = f"<verif-rwref-{_uid[0]}>"
     linecache.cache[rname] = (len(rsrc), None, rsrc.splitlines(True), rname)
+    # (the factory form with an alias reads REC while the source is executed: a forwarder until the real one exists)
+    rglb["REC"] = lambda *a, **k: rglb["_REC"](*a, **k)
     exec(compile(rsrc, rname, "exec"), rglb)
     ref = rglb["m_list"]
 
@@ -251,6 +264,7 @@ def m_obj(x: object, y: int = 3{kw}):
     def NXT(*a, **k):
         return ov_rest(*a, **k)
 
+    rglb["_REC"] = REC
     rglb["REC"] = REC
     rglb["NXT"] = NXT
     return ov, ref, log, src, fname, rname
@@ -315,7 +329,9 @@ def worker(payload):
             allow.add("cn_starred")
         g = G(rng, allow)
         lines = g.body()
-        closure = rng.random() < 0.3
+        # 0: a plain function; 1: made by a factory (one closure variable); 2: made by a factory in which `recurse` goes
+        # under a local alias — the alias is a closure variable that the rewrite removes, between two that stay
+        closure = rng.choice([0, 0, 0, 0, 0, 0, 1, 1, 2]) if "selfname" not in g.used else rng.choice([0, 0, 1])
         kwdefault = "kw" in g.used or "dstar" in g.used or rng.random() < 0.3
         for f in g.used:
             out["hist"][f] = out["hist"].get(f, 0) + 1
